@@ -17,10 +17,13 @@ def check(run):
     r2, r3 = "C01-order", "C01-cells"
     run.rule(r2, "is_more_specific is the documented per-position decision table over {equal, derived, base, unrelated}", floor=3)
     run.rule(r3, "dispatch cell = sole best definition / not_implemented when none / ambiguous when several", floor=12)
+    r4 = "C01-applicable"
+    run.rule(r4, "a definition applies to a class iff the class is in the covariant set (class + all derived) of the definition's parameter class at that position", floor=6)
     for nd in variants:
         ast, _ = crules.unit(run, ndebug=nd)
         crules.order_rules(run, r2, None, ast)
         crules.cells_rules(run, r3, None, None, ast)
+        crules.applicable_rules(run, r4, ast)
     run.assumptions += ["v-table pointer acquisition (Policy::dynamic_vptr, virtual_ptr::_vptr) is an opaque leaf here; its content is decided by C09 / C15",
                         "the tables themselves (which definition sits in which cell) are values computed by update: not decided"]
     return run.finish(level="other", explanation="Symbolic summary (LLVM IR after mem2reg, library calls substituted) of the function pointer that "
